@@ -646,6 +646,8 @@ func runLint(which string) {
 			sites += n
 			hits = append(hits, h...)
 		}
+	case "LEAK":
+		sites, hits = globalLeaks(p, fns)
 	case "GLOBALS":
 		sites, hits = globalWrites(p, NewEffects(p), fns, os.Getenv("GCV_INIT") != "")
 	case "L17":
